@@ -113,7 +113,7 @@ def main():
             if rc != 0:
                 desc["outcome"] = "does_not_compile"
                 continue
-            rc, o = sh(["cargo", "test", "--workspace", "--no-fail-fast", "--offline", "--quiet"], REPO, 900)
+            rc, o = sh(["cargo", "test", "--workspace", "--no-fail-fast", "--offline", "--quiet", "--lib", "--bins", "--tests"], REPO, 900)
             if rc != 0:
                 desc["outcome"] = "killed_by_existing_tests"
                 done += 1
